@@ -23,6 +23,8 @@ opened by the previous directive.
     %loop N [iter=NAME]           invariant/decreases text for the N-th loop (1-based, source order)
     %before N `anchor`            text inserted before the N-th occurrence of anchor tokens
     %after N `anchor`             text inserted after the statement containing that occurrence
+    %wrap N `anchor`              two text blocks separated by a line '---': inserted before / after the anchor tokens
+    %truncate N `e as T`          shorthand: wrap the cast in #[verifier::truncate] ( ... )
     %nocanary                     do not emit the reachability canary for this function
   %endfn
   %extern PATH                    external_body declaration using PATH's %spec from its home unit
@@ -101,6 +103,7 @@ def parse_unit(path):
     cur_block = None   # (target, attr) where text is accumulated
     default_props = []
     raw = None
+    raw_kind = ("raw",)
 
     def close_block():
         nonlocal cur_block
@@ -111,7 +114,10 @@ def parse_unit(path):
     for (src, n, line) in lines:
         if raw is not None:
             if line.startswith("%endraw"):
-                unit.entries.append(("raw", "\n".join(raw)))
+                if raw_kind[0] == "raw":
+                    unit.entries.append(("raw", "\n".join(raw)))
+                else:
+                    unit.entries.append(("implraw", raw_kind[1], "\n".join(raw)))
                 raw = None
             else:
                 raw.append(line)
@@ -170,6 +176,11 @@ def parse_unit(path):
             buf_target = None
         elif d == "%raw":
             raw = []
+            raw_kind = ("raw",)
+        elif d == "%implraw":
+            # %implraw IMPLPATH : verbatim text emitted inside the (re-assembled) impl block IMPLPATH
+            raw = []
+            raw_kind = ("implraw", arg)
         elif cur_fn is None:
             raise SpecError(f"{src}:{n}: {d} outside %fn")
         elif d == "%ret":
@@ -202,11 +213,16 @@ def parse_unit(path):
             def add(l, f=cur_fn, k=k):
                 f.loops[k][1] += l + "\n"
             buf_target = add
-        elif d in ("%before", "%after"):
+        elif d in ("%before", "%after", "%wrap", "%truncate"):
             m = re.match(r"(\d+)\s+`(.*)`\s*$", arg)
             if not m:
                 raise SpecError(f"{src}:{n}: bad anchor syntax: {arg!r}")
             h = Hint(d[1:], int(m.group(1)), m.group(2), line=n)
+            if h.mode == "truncate":
+                # %truncate N `expr as T` : mark a deliberately truncating cast (Rust `as` truncates;
+                # Verus leaves an out-of-range cast unspecified unless it is marked)
+                h.mode = "wrap"
+                h.text = "#[verifier::truncate] (\n---\n)\n"
             cur_fn.hints.append(h)
 
             def add(l, h=h):
